@@ -32,6 +32,9 @@ pub struct Case {
     /// step budget: a run that ends with NeedLargerNMax still owns the dense output of the steps it took
     #[serde(default)]
     pub max_steps: Option<usize>,
+    /// when present the case is a low-level run whose callback answers XOut (dense output on demand); the other fields are unused
+    #[serde(default)]
+    pub xout: Option<crate::xoutrel::XCase>,
 }
 
 fn not_enabled<T>(r: &Result<T, Error>) -> bool {
@@ -42,6 +45,9 @@ fn out_of_range<T>(r: &Result<T, Error>) -> bool {
 }
 
 pub fn check(c: &Case) -> Outcome {
+    if let Some(x) = &c.xout {
+        return crate::xoutrel::check(x, crate::xoutrel::Aspect::Ends);
+    }
     let sp = &c.span;
     let d = sp.dir();
     let (x0, xend) = if c.zero_length { (sp.x0, sp.x0) } else { (sp.x0, sp.xend) };
@@ -96,6 +102,12 @@ pub fn check(c: &Case) -> Outcome {
         other => return Outcome::viol(format!("{}: plain run Ok but the run with dense={} t_eval={} gives {}", c.method.name(), c.dense, te.is_some(), other.describe())),
     };
     let name = format!("{} {}", c.method.name(), status_name(sol.status));
+    if std::env::var("VF_DEBUG").is_ok() {
+        eprintln!("grid={:?}\nte={:?}\nsol.t={:?}\nsol.y={:?}\nspan={:?}", grid, te, sol.t, sol.y, sol.sol_span());
+        for t in &sol.t {
+            eprintln!("sol({:e}) = {:?}", t, sol.sol(*t));
+        }
+    }
     if !c.dense {
         let a = sol.sol(x0);
         let b = sol.sol_many(&[x0]);
@@ -229,12 +241,12 @@ pub fn strategy() -> BoxedStrategy<Case> {
         any::<bool>(),
         (0u8..30, proptest::option::weighted(0.15, 3usize..60)),
         proptest::collection::vec(prop_oneof![6 => fr(0.0, 1.0), 1 => Just(0.0), 1 => Just(1.0)], 1..12),
-        proptest::collection::vec(log10(-9.0, 0.5), 1..4),
+        (proptest::collection::vec(log10(-9.0, 0.5), 1..4), proptest::option::weighted(0.12, crate::xoutrel::strategy())),
     )
-        .prop_map(|(prob, span, method, (rtol, atol), (dense, t_eval, max_step, first_step), terminal_at, analytic_jac, (z, max_steps), queries, outside)| {
+        .prop_map(|(prob, span, method, (rtol, atol), (dense, t_eval, max_step, first_step), terminal_at, analytic_jac, (z, max_steps), queries, (outside, xout))| {
             let stiff = prob.blocks.iter().any(|b| matches!(b, Block::Real { lam, .. } if *lam < -20.0));
             let method = if stiff && !method.implicit() { if method == Meth::RK4 || method == Meth::RK23 { Meth::BDF } else { Meth::RADAU } } else { method };
-            Case { prob, span, method, rtol, atol, dense, t_eval, max_step, first_step, terminal_at, analytic_jac, zero_length: z == 0, queries, outside, max_steps }
+            Case { prob, span, method, rtol, atol, dense, t_eval, max_step, first_step, terminal_at, analytic_jac, zero_length: z == 0, queries, outside, max_steps, xout }
         })
         .boxed()
 }
@@ -247,7 +259,7 @@ pub fn run(ctx: &Ctx, known: &[Known]) -> Report {
     let stats = run_generated(ctx, "C06", "gen", &strategy, &check, cases, known);
     Report {
         id: "C06".into(),
-        rule: "cases = closed-form problems (n<=5) and mildly stiff linear ones (rates to 1e4, Radau/BDF) x spans x six methods x tolerances x dense on/off x optional grid-relative t_eval, max_step, first_step, max_steps (a run ending with NeedLargerNMax keeps the dense output of the steps it took), terminal event, zero-length run. The accepted-step grid and states are observed through one events() call per step; oracle: sol_span = [x0, last step end], sol(step end) = state, continuity just after every interior boundary, sol(reported sample) = sample, sol/sol_many Ok and equal for generated interior points, OutOfRange for points outside by more than 1e-9(1+|t|), NotEnabled when disabled. (The per-step interpolant handed to SolOut callbacks is checked on every callback of every history in C19.) Non-trivial = at least 3 accepted steps. Distinct = distinct canonical JSON.".into(),
+        rule: "cases = closed-form problems (n<=5) and mildly stiff linear ones (rates to 1e4, Radau/BDF) x spans x six methods x tolerances x dense on/off x optional grid-relative t_eval, max_step, first_step, max_steps (a run ending with NeedLargerNMax keeps the dense output of the steps it took), terminal event, zero-length run. The accepted-step grid and states are observed through one events() call per step; oracle: sol_span = [x0, last step end], sol(step end) = state, continuity just after every interior boundary, sol(reported sample) = sample, sol/sol_many Ok and equal for generated interior points, OutOfRange for points outside by more than 1e-9(1+|t|), NotEnabled when disabled. The per-step interpolant handed to SolOut callbacks: one case in eight is a low-level run of any of the six solvers with dense_output default/true/false whose callback answers ControlFlag::XOut at generated callbacks (or prints equidistantly, announcing each next output point): every interpolant handed over must reproduce both end states of its step (and C19 checks the same on every callback of every history). Non-trivial = at least 3 accepted steps. Distinct = distinct canonical JSON.".into(),
         assumptions: vec![
             "end-point agreement to 1e-10*(1+|y|) + 8*max|f|*ulp(t) (a time is only known to an ulp); continuity probe at t + max(2.5e-12, 8 ulp) with bound 2*max|f|*delta".into(),
             "'clearly outside' = farther than 1e-9*(1+|t|) from the covered span".into(),
